@@ -98,3 +98,118 @@ def auth_harness(prop, tier, seed, cov, log):
                               'replay': f'.cache/bin/auth -seed {seed} -n {n} | lean/.lake/build/bin/driver'}, [l[:3000]])
         viol.append((path, ''))
     return viol
+
+
+def _grid_blocks(text):
+    """split a grid stream into histories: list of lists of lines (GRID ... GEND)"""
+    blocks, cur = [], None
+    for l in text.split('\n'):
+        if l.startswith('GRID '):
+            cur = [l]
+        elif cur is not None:
+            cur.append(l)
+            if l == 'GEND' or l.startswith('GW '):
+                blocks.append(cur); cur = None
+    if cur: blocks.append(cur)
+    return blocks
+
+
+def _grid_ops(block, upto=None):
+    ops = [l for l in block[:upto] if l.split(' ', 1)[0] in ('GRID', 'GI', 'GR', 'GQ')]
+    return ops + ['GEND']
+
+
+def _grid_run(args, timeout):
+    """run the Go grid harness and the Lean replay on its output; returns (go blocks, lean blocks, GSTAT dict, error)"""
+    try:
+        r = subprocess.run([f'{L.BIN}/grid'] + args, capture_output=True, text=True, env=L.GOENV, timeout=timeout)
+    except subprocess.TimeoutExpired:
+        return [], [], {}, 'grid harness timed out'
+    if r.returncode not in (0, 3):
+        return [], [], {}, 'grid harness failed: ' + r.stderr[-1500:]
+    d = subprocess.run([L.DRIVER, 'grid'], input=r.stdout, capture_output=True, text=True)
+    stat = {}
+    for l in r.stdout.split('\n'):
+        if l.startswith('GSTAT') or l.startswith('PRIM'):
+            for k, v in re.findall(r'([\w-]+)=(\d+)', l): stat[k] = stat.get(k, 0) + int(v)
+    return _grid_blocks(r.stdout), _grid_blocks(d.stdout), stat, None
+
+
+def _grid_job(a):
+    return _grid_run(*a)
+
+
+def grid_harness(prop, tier, seed, cov, log):
+    """C20: the real dagaz.RegularGrid against the float32 Lean model (bit-exact state after every operation), the
+    index monitors evaluated on the real state with exact arithmetic, the ghost-span check of the theorems'
+    float hypothesis, and the primitives against float64 references."""
+    import concurrent.futures as cf, glob
+    quick = tier == 'quick'
+    jobs = []
+    for f in sorted(glob.glob(L.V + '/corpus/grid/*.hist')):
+        jobs.append((['-mode', 'replay', '-file', f, '-watchdog', '5s'], 120))
+    chunks = 8 if quick else 16
+    per = 20 if quick else 220
+    length = 60 if quick else 100
+    for i in range(chunks):
+        jobs.append((['-mode', 'gen', '-seed', str(seed * 100 + i), '-n', str(per), '-len', str(length)], 3000))
+    for i in range(2 if quick else 6):
+        jobs.append((['-mode', 'gen', '-seed', str(seed * 100 + 50 + i), '-n', str(per), '-len', str(length), '-wild'], 3000))
+    jobs.append((['-mode', 'prim', '-seed', str(seed), '-n', str(20000 if quick else 600000)], 3000))
+    totals = {}; viol = []; seen = set(); known = L.load_known(prop)
+    hist = 0; ops = 0; same = 0; checks = 0
+    first_diff = None
+    def report(cause, block, upto, detail, suffix=''):
+        if cause in seen: return
+        seen.add(cause)
+        k = [e for e in known if e['cause'] == cause]
+        if k:
+            print(f'KNOWN-FINDING: property={prop} {k[0]["what"]} [{cause}]'); return
+        body = _grid_ops(block, upto) if block else []
+        path = L.write_replay(prop, cause, {'property': prop, 'cause': cause, 'seed': seed, 'tier': tier, 'detail': detail[:800],
+                              'replay': f'.cache/bin/grid -mode replay -file replays/{prop}-{cause}.trace | tee /dev/stderr | lean/.lake/build/bin/driver grid'}, body)
+        viol.append((path, suffix))
+    with cf.ThreadPoolExecutor(max_workers=L.NCPU) as ex:
+        for (gob, leanb, stat, err) in ex.map(_grid_job, jobs):
+            if err:
+                report('grid-harness', None, None, err, ' no-failing-input-found'); continue
+            for k, v in stat.items(): totals[k] = totals.get(k, 0) + v
+            for bi, gb in enumerate(gob):
+                hist += 1
+                lb = leanb[bi] if bi < len(leanb) else []
+                indom = True
+                gx = [l for l in lb if l.startswith('GX ')]
+                if gx:
+                    m = re.search(r'checks=(\d+) drift=(\d+) domain=(\w+)', gx[0])
+                    checks += int(m.group(1)); indom = m.group(3) == 'in'
+                    if int(m.group(2)) > 0 and indom:
+                        report('span-drift', gb, None, 'float32 cell arithmetic disagrees with the span the plane was registered with: ' + gx[0],
+                               ' no-failing-input-found')
+                g_lines = [re.sub(r'^GP .*', 'GP', l) for l in gb if not l.startswith(('GM ', 'GSTAT', 'GW '))]
+                l_lines = [l for l in lb if not l.startswith('GX ')]
+                ops += sum(1 for l in g_lines if l.split(' ', 1)[0] in ('GI', 'GR', 'GQ'))
+                if g_lines == l_lines:
+                    same += 1
+                elif first_diff is None:
+                    at = next((i for i, (a, b) in enumerate(zip(g_lines, l_lines)) if a != b), min(len(g_lines), len(l_lines)))
+                    first_diff = (gb, g_lines[:at + 1], (g_lines + ['<end>'])[at][:600], (l_lines + ['<end>'])[at][:600])
+                for i, l in enumerate(gb):
+                    if l.startswith('GM in-domain'):
+                        report(l.split()[2], gb, i, l)
+                    elif l.startswith('GW '):
+                        if indom: report('operation-never-returns', gb, i, l)
+                    elif l.startswith('GP ') and indom:
+                        report('operation-panics', gb, i + 1, l)
+    if totals.get('bad', 0):
+        report('primitive-off-reference', None, None, f"{totals['bad']} of {totals.get('cases')} primitive cases outside tolerance; run .cache/bin/grid -mode prim -seed {seed}")
+    if first_diff and not viol:
+        gb, upto_lines, a, b = first_diff
+        report('grid-correspondence', upto_lines, None, f'implementation: {a} | model: {b}', ' no-failing-input-found')
+    elif first_diff:
+        cov['grid_first_difference'] = {'implementation': first_diff[2], 'model': first_diff[3]}
+    cov['grid_histories'] = hist
+    cov['grid_operations'] = ops
+    cov['grid_histories_bit_identical_to_model'] = same
+    cov['grid_span_hypothesis_checks'] = checks
+    cov['grid_distribution'] = dict(sorted(totals.items()))
+    return viol
